@@ -21,7 +21,7 @@ def run_one(m, tier="quick"):
             t = time.time()
             r = subprocess.run([os.path.join(VERIF, "bin", "check"), prop, "--tier", tier, "--root", tmp], capture_output=True, text=True, env=env)
             exp = 1 if m["expect"] == "violation" else 0
-            good = r.returncode == exp
+            good = r.returncode == exp and (exp != 1 or "VIOLATION property=" in r.stdout)
             if good and exp == 1 and m.get("rule"):
                 good = ("[%s]" % m["rule"]) in r.stdout
             ok = ok and good
